@@ -526,6 +526,7 @@ def _extra_rules(ctx, repo, ps, dps, mps):
             ctx.ob('C14.j', key, ok, '' if ok else msg, ps.rel, branch.lineno, construct='cirq.ops.pauli_string._try_interpret_as_pauli_string:shortcut')
 
     _phasor_rule(ctx, repo)
+    _all_terms_rule(ctx, repo)
 
 
 def _functions(mod):
@@ -659,3 +660,44 @@ def _wire(it, name_lookup, attr_hook):
             return getattr(v, node.attr)
         return NotImplemented
     it.attr_hook = attr2
+
+
+def _all_terms_rule(ctx, repo):
+    """C14.l - aggregations over the terms of a linear combination visit every term (no filter on the operator part)."""
+    ctx.decided.append('C14.l sums over the terms of PauliSum / LinearCombinationOf* / PauliString (expectation values, matrices, parameter handling) visit every term: a comprehension '
+                       'over all terms may only filter on the coefficient, never on the operator part (an empty Pauli string is the identity term, not a vanished one)')
+    ctx.rule('C14.l', 'linearity of aggregations: in the linear-combination classes, every comprehension over self / self.items() / self._linear_dict.items() / self.keys() / self.values() '
+             'has no `if` clause, or one that reads nothing but the coefficient', floor=12, style='COH')
+    ALL = ('self', 'self.items()', 'self._linear_dict.items()', 'self.values()', 'self.keys()', 'self._qubit_pauli_map.items()')
+    n = 0
+    for cq in ('cirq.ops.linear_combinations.PauliSum', 'cirq.ops.linear_combinations.LinearCombinationOfGates', 'cirq.ops.linear_combinations.LinearCombinationOfOperations',
+               'cirq.ops.pauli_string.PauliString'):
+        ci = repo.cls(cq)
+        for fn in [f for f in ci.node.body if isinstance(f, ast.FunctionDef)]:
+            k = 0
+            for c in ast.walk(fn):
+                if not isinstance(c, (ast.GeneratorExp, ast.ListComp, ast.SetComp, ast.DictComp)):
+                    continue
+                for g in c.generators:
+                    if ast.unparse(g.iter) not in ALL:
+                        continue
+                    k += 1
+                    n += 1
+                    coeff = set()
+                    if isinstance(g.target, ast.Tuple) and len(g.target.elts) == 2 and isinstance(g.target.elts[1], ast.Name) and ast.unparse(g.iter).endswith('items()') \
+                            and '_qubit_pauli_map' not in ast.unparse(g.iter):
+                        coeff.add(g.target.elts[1].id)
+                    term = {x.id for x in ast.walk(g.target) if isinstance(x, ast.Name)} - coeff
+                    bad = []
+                    for f_ in g.ifs:
+                        for x in ast.walk(f_):
+                            if isinstance(x, ast.Name) and x.id in term:
+                                # allowed: <term>.coefficient
+                                par_ok = any(isinstance(a, ast.Attribute) and a.value is x and a.attr in ('coefficient', '_coefficient') for a in ast.walk(f_))
+                                if not par_ok:
+                                    bad.append(f_)
+                    ok = not bad
+                    ctx.ob('C14.l', f'{ci.qual}.{fn.name}:all-terms#{k}', ok, '' if ok else f'`{ast.unparse(c)[:90]}` skips terms by a test on the operator part (`{ast.unparse(bad[0])}`): '
+                           'a PauliString without factors is falsy, so the identity term c*I is left out of the sum whatever its coefficient', ci.mod.rel, c.lineno)
+    if n == 0:
+        raise AnalysisError('C14.l: no aggregation over all terms found')
